@@ -940,6 +940,16 @@ class Interp:
             return None
         return list(reversed(el)) if rev else el
 
+    def listed_elems(self, itv):
+        """literal_elems restricted to (iterators over) vectors / arrays whose elements are all known values: the elements in the order
+        the iterator yields them, None for anything else (ranges and byte strings have models of their own)."""
+        b = itv
+        while b[0] == 'call' and b[1].rsplit('::', 1)[-1] in ('rev', 'into_iter', 'iter') and len(b[2]) == 1:
+            b = b[2][0]
+        if not self.exact_seqs or b[0] not in ('vec', 'array'):
+            return None
+        return self.literal_elems(itv)
+
     def ev_For(self, e, st):
         outs = []
         for o in self.ev(e['iter'], st):
@@ -1579,6 +1589,51 @@ class Interp:
                         return [Out('val', ('ctor', 'None', ()), st)]
                     s2 = st.set(recv['bind'], ('vec', old[1][:-1])).event(('call', cal, (old,), e))
                     return [Out('val', ('ctor', 'Some', (old[1][-1],)), s2)]
+        if self.exact_seqs and not e['args'] and (cal == 'core::iter::traits::iterator::Iterator::next' or cal.endswith(' as core::iter::traits::iterator::Iterator>::next')
+                                                  or cal == 'core::iter::traits::double_ended::DoubleEndedIterator::next_back' or cal.endswith(' as core::iter::traits::double_ended::DoubleEndedIterator>::next_back')):
+            # it.next() / it.next_back() on a local iterator over a vector / array all of whose elements are known (into_iter / iter /
+            # drain / rev of one): the first / last of the elements not yet yielded leaves the iterator, None when there is none left.
+            # The local then stands for the iterator over the remaining elements (Iterator::next is only defined on iterators: a
+            # local whose value is a listed vector here *is* an iterator over it).
+            recv = hirq.peel_refs(e['recv'])
+            if recv['k'] == 'Path' and recv.get('res') == 'local':
+                old = st.env.get(recv['bind'])
+                els = self.listed_elems(old) if old is not None else None
+                if els is not None:
+                    if not els:
+                        return [Out('val', ('ctor', 'None', ()), st)]
+                    back = cal.rsplit('::', 1)[-1] == 'next_back'
+                    s2 = st.set(recv['bind'], ('vec', tuple(els[:-1] if back else els[1:]))).event(('call', cal, (old,), e))
+                    return [Out('val', ('ctor', 'Some', (els[-1] if back else els[0],)), s2)]
+        if self.exact_seqs and cal.startswith('core::iter::adapters::peekable::Peekable::<I>::') and cal.rsplit('::', 1)[-1] in ('peek', 'next_if', 'next_if_eq') \
+                and len(e['args']) == (0 if cal.endswith('::peek') else 1):
+            # Peekable over known elements, held in a local (peekable() itself is transparent: the same elements):
+            #   peek()          Some(the next element) without consuming it, None when there is none
+            #   next_if(p)      the next element is consumed and returned exactly when there is one and p(&it) holds; otherwise None and
+            #                   nothing is consumed;   next_if_eq(x) = next_if(|it| it == x)
+            recv = hirq.peel_refs(e['recv'])
+            if recv['k'] == 'Path' and recv.get('res') == 'local':
+                old = st.env.get(recv['bind'])
+                els = self.listed_elems(old) if old is not None else None
+                if els is not None:
+                    name = cal.rsplit('::', 1)[-1]
+                    if name == 'peek':
+                        return [Out('val', ('ctor', 'Some', (els[0],)) if els else ('ctor', 'None', ()), st)]
+                    res, abn = self.seq(e['args'], st)
+                    outs = list(abn)
+                    for (a,), s in res:
+                        if not els:
+                            outs.append(Out('val', ('ctor', 'None', ()), s)); continue
+                        tests = self.apply(a, [els[0]], e, s) if name == 'next_if' else [Out('val', bin_term('Eq', els[0], a), s)]
+                        for o in tests:
+                            if o.kind != 'val':
+                                outs.append(o); continue
+                            for truth, s3 in self.decide(o.val, o.st):
+                                if truth:
+                                    outs.append(Out('val', ('ctor', 'Some', (els[0],)), s3.set(recv['bind'], ('vec', tuple(els[1:]))).event(('call', cal, (old, a), e))))
+                                else:
+                                    outs.append(Out('val', ('ctor', 'None', ()), s3))
+                    return outs
         if self.exact_seqs and cal.rsplit('::', 1)[-1] == 'extend' and 'alloc::vec::Vec<' in cal and len(e['args']) == 1:
             # vec.extend(seq) where the local vector and the sequence are both known element by element: the pushes, in order
             recv = hirq.peel_refs(e['recv'])
@@ -1819,6 +1874,8 @@ class Interp:
                 done(('vec', ()), UNIT)
             elif own and name in self.VEC_CAPACITY_ONLY:
                 outs.append(Out('val', ('call', cal, (c,) + tuple(vals), site), s.event(('call', cal, (c,) + tuple(vals), e))))
+            elif c[0] == 'vec' and self.listed_vec_method(cal, name, own, c, vals, e, s, done, outs):
+                pass
             elif own and name == 'retain' and len(vals) == 1 and vals[0][0] in ('closure', 'fn'):
                 el, s1 = s.fresh('elem')
                 el = ('elem', c, el[2])
@@ -1830,6 +1887,63 @@ class Interp:
             else:
                 done(('mutated', c, cal, site), ('call', cal, (c,) + tuple(vals), site))
         return outs
+
+    def listed_vec_method(self, cal, name, own, c, vals, e, s, done, outs):
+        """Positional `&mut self` methods of Vec / of the slice behind it on a vector whose elements are all listed (c = ('vec', elems);
+        the elements themselves may be symbolic), at literal positions - each is std's definition applied to the list, for every
+        list and every position (the documented panics included):
+          insert(k, x)     [..k] x [k..];  panics if k > len
+          remove(k)        returns element k, leaves [..k] [k+1..];  panics if k >= len
+          swap_remove(k)   returns element k, its place is taken by the last element, which leaves the end;  panics if k >= len
+          split_off(k)     returns [k..] as a new vector, leaves [..k];  panics if k > len
+          drain(range)     returns (an iterator over) the elements of the range in order and leaves the rest - whether or not the
+                           iterator is consumed: dropping a Drain removes what it has not yielded;  panics if start > end or end > len
+          reverse()        the elements in the opposite order;   swap(i, j)  elements i and j exchanged, panics if either is >= len
+        Returns False for anything else (the caller records the vector as mutated in an unknown way)."""
+        xs = c[1]
+        n = len(xs)
+        def pos(v):
+            return v[1] if v[0] == 'lit' and isinstance(v[1], int) and not isinstance(v[1], bool) and v[1] >= 0 else None
+        def panic():
+            outs.append(Out('div', UNIT, s.event(('panic', cal, (c,) + tuple(vals), e))))
+            return True
+        if own and name == 'insert' and len(vals) == 2 and pos(vals[0]) is not None:
+            k = pos(vals[0])
+            if k > n:
+                return panic()
+            done(('vec', xs[:k] + (vals[1],) + xs[k:]), UNIT)
+            return True
+        if own and name in ('remove', 'swap_remove') and len(vals) == 1 and pos(vals[0]) is not None:
+            k = pos(vals[0])
+            if k >= n:
+                return panic()
+            done(('vec', xs[:k] + xs[k + 1:]) if name == 'remove' or k == n - 1 else ('vec', xs[:k] + (xs[-1],) + xs[k + 1:-1]), xs[k])
+            return True
+        if own and name == 'split_off' and len(vals) == 1 and pos(vals[0]) is not None:
+            k = pos(vals[0])
+            if k > n:
+                return panic()
+            done(('vec', xs[:k]), ('vec', xs[k:]))
+            return True
+        if own and name == 'drain' and len(vals) == 1:
+            r = literal_index_range(vals[0], n)
+            if r is not None:
+                lo, hi = r
+                if lo > hi or hi > n:
+                    return panic()
+                done(('vec', xs[:lo] + xs[hi:]), ('vec', xs[lo:hi]))
+                return True
+        if not own and cal == 'core::slice::<impl [T]>::reverse' and not vals:
+            done(('vec', tuple(reversed(xs))), UNIT)
+            return True
+        if not own and cal == 'core::slice::<impl [T]>::swap' and len(vals) == 2 and pos(vals[0]) is not None and pos(vals[1]) is not None:
+            i, j = pos(vals[0]), pos(vals[1])
+            if i >= n or j >= n:
+                return panic()
+            ys = list(xs); ys[i], ys[j] = ys[j], ys[i]
+            done(('vec', tuple(ys)), UNIT)
+            return True
+        return False
 
     def apply(self, fv, args, node, st):
         if fv[0] == 'fn':
@@ -2343,6 +2457,23 @@ def bin_term(op, a, b):
         return ('lit', (a[1] == b[1]) == (op == 'Eq'))
     if op in ('Eq', 'Ne') and a[0] == 'ctor' and b[0] == 'ctor' and not a[2] and not b[2]:
         return ('lit', (a[1] == b[1]) == (op == 'Eq'))
+    if op in ('Eq', 'Ne') and (a[0] != 'lit' or b[0] != 'lit') and std_ground(a) and std_ground(b):
+        # Option / Result / tuple values all of whose parts are literals: std's PartialEq for them is structural - the same variant
+        # (the same arity) and equal payloads, the payloads compared as literals are (above)
+        def same(x, y):
+            if x[0] == 'lit' and y[0] == 'lit':
+                r = bin_term('Eq', x, y)
+                return r[1] if r[0] == 'lit' and isinstance(r[1], bool) else None
+            if x[0] != y[0] or x[0] == 'lit':
+                return None if 'lit' in (x[0], y[0]) else False
+            xs, ys = (x[2], y[2]) if x[0] == 'ctor' else (x[1], y[1])
+            if (x[0] == 'ctor' and x[1] != y[1]) or len(xs) != len(ys):
+                return False
+            rs = [same(p, q) for p, q in zip(xs, ys)]
+            return False if False in rs else None if None in rs else True
+        r = same(a, b)
+        if r is not None:
+            return ('lit', r == (op == 'Eq'))
     if op in ('Eq', 'Ne') and a == b and a[0] == 'call' and a[3] is None and not leaves(a, lambda z: z[0] == 'unk'):
         # the same pure observer (`len`, `is_empty`, ...: site None, see PURE_OBSERVERS) of the same terms is one and the same value -
         # the assumption `St.known` already makes when the same test is met twice on a path
@@ -2392,6 +2523,19 @@ def range_value(t):
     if t[0] == 'call' and t[1] == 'core::ops::range::RangeInclusive::<Idx>::new' and len(t[2]) == 2:
         return ('RangeInclusive', t[2][0], t[2][1])
     return None
+
+def literal_index_range(rng, n):
+    """(lo, hi), hi exclusive: the positions a value of one of std's range types selects in a sequence of n elements (RangeBounds:
+    a missing start is 0, a missing end is n, an inclusive end e is e + 1), when its bounds are integer literals; None otherwise.
+    Whether the positions exist (lo <= hi <= n) is the caller's business - that is where the operation panics."""
+    rv = range_value(rng)
+    if rv is None:
+        return None
+    kind, lo, hi = rv
+    for b in (lo, hi):
+        if b is not None and not (b[0] == 'lit' and isinstance(b[1], int) and not isinstance(b[1], bool) and b[1] >= 0):
+            return None
+    return (lo[1] if lo is not None else 0, n if hi is None else hi[1] + (1 if kind in ('RangeInclusive', 'RangeToInclusive') else 0))
 
 def range_as_built(I, node, term, st):
     """The range a method is called on still has the bounds of the expression that built it (a range is also an iterator: `next`
@@ -2509,6 +2653,10 @@ def ground(t):
         return all(ground(x) for x in t[1])
     if t[0] == 'ctor':
         return all(ground(x) for x in t[2])
+    if t[0] == 'struct' and len(t) == 4 and t[3] is None:
+        # a struct expression without a functional-update base, every field of which is completely known (a literal tree of
+        # lber::structure::StructureTag values handed to a decoder, say)
+        return all(ground(v) for _n, v in t[2])
     return False
 
 def listed_elems(t):
@@ -2529,6 +2677,14 @@ def listed_elems(t):
 def default_term(ty):
     """(one definition: see default_value)"""
     return default_value(ty)
+
+def std_ground(t):
+    """t is a completely known value built from literals with Option / Result constructors and tuples only"""
+    if t[0] == 'lit':
+        return True
+    if t[0] == 'ctor':
+        return t[1] in ('Some', 'None', 'Ok', 'Err') and all(std_ground(x) for x in t[2])
+    return t[0] == 'tuple' and all(std_ground(x) for x in t[1])
 
 def vec_truncate(c, n):
     """The content of vector term c after truncate(n)."""
@@ -2623,6 +2779,15 @@ def known_seq_summary(I, cal, name, args, node, st):
             states = nxt
         miss = {'any': FALSE, 'all': TRUE, 'position': ('ctor', 'None', ()), 'find': ('ctor', 'None', ())}[name]
         return outs + [Out('val', miss, s) for s in states]
+    if is_iter and name in ('skip', 'take') and len(args) == 2 and args[1][0] == 'lit' and isinstance(args[1][1], int) and not isinstance(args[1][1], bool) \
+            and args[1][1] >= 0 and I.listed_elems(args[0]) is not None:
+        # skip(n) / take(n) of an iterator over known elements: without / only its first n elements, in order (n larger than the
+        # number of elements: nothing / all of them)
+        xs = I.listed_elems(args[0])
+        return [Out('val', ('vec', tuple(xs[args[1][1]:] if name == 'skip' else xs[:args[1][1]])), st)]
+    if is_iter and name == 'last' and len(args) == 1 and I.listed_elems(args[0]) is not None:
+        xs = I.listed_elems(args[0])
+        return [Out('val', ('ctor', 'Some', (xs[-1],)) if xs else ('ctor', 'None', ()), st)]
     if is_iter and name == 'count' and len(args) == 1 and I.literal_elems(args[0]) is not None:
         return [Out('val', ('lit', len(I.literal_elems(args[0]))), st)]
     if cal.startswith('core::option::Option::<T>::') and name == 'filter' and len(args) == 2 and args[1][0] in ('closure', 'fn') \
